@@ -57,7 +57,17 @@ static inline bool verif_nd_bool(const char *t) { return verif_tape_next(t, 1ULL
 /* -------------------------------------------------------------------- cbmc */
 #define VERIF_ASSERT(c, name) __CPROVER_assert((c), name)
 #define VERIF_ASSUME(c) __CPROVER_assume(c)
+/* cover points (vacuity guard): plain mode uses cbmc --cover cover on the
+ * same binary; under --dfcc a body-less __CPROVER_cover would be turned into
+ * assert(false);assume(false), so dfcc harnesses compile cover points away in
+ * the proof pass and as must-fail assertions in a separate cover pass */
+#if defined(VERIF_COVER_PASS)
+#define VERIF_COVER(c) __CPROVER_assert(!(c), "VERIF-COVER " #c)
+#elif defined(VERIF_DFCC)
+#define VERIF_COVER(c) ((void)0)
+#else
 #define VERIF_COVER(c) __CPROVER_cover(c)
+#endif
 
 #define VERIF_R_OK(p, n) __CPROVER_r_ok((p), (n))
 #define VERIF_W_OK(p, n) __CPROVER_w_ok((p), (n))
